@@ -88,3 +88,15 @@ Definition server_base_path_of (raw : str) : str :=
   let inp := filter (fun c => negb (tab_or_nl c)) (rev (drop_while c0_or_space (rev raw))) in
   path_steps [47] (split_seps (path_part inp)).
 Definition server_base_path (suffix : str) : str := server_base_path_of (normalise_suffix suffix).
+
+(* ---- the code-info redirect (http.rs individual_lookup_debug_info_by_code_info) --------------------------------
+   A symbol server may answer the `<code file>/<CODE ID>/<code file>.sym` request with 302 / 301 and a Location
+   `…/<debug file>/<debug id>/<file>`: one leading '/' is stripped, then `rsplit('/')`: `nth(1)` is the debug id part,
+   the following `next()` the debug file part — a name supplied by the SERVER, which then goes through
+   breakpad_sym_lookup like a name found in the dump. *)
+Definition strip_one_slash (s : str) : str := match s with c :: r => if c =? 47 then r else s | [] => [] end.
+Definition parse_location (loc : str) : option (str * str) :=            (* (debug file part, debug id part) *)
+  match rev (split_on 47 (strip_one_slash loc)) with
+  | _ :: idp :: dfp :: _ => Some (dfp, idp)
+  | _ => None
+  end.
